@@ -296,7 +296,7 @@ func c02R4(c *core.Ctx) {
 						return false, false
 					}
 					if ex, ok := a.V.(*ssa.Extract); ok && ex.Index == 1 {
-						if ta, ok := ex.Tuple.(*ssa.TypeAssert); ok && ta.X == sub {
+						if ta, ok := ex.Tuple.(*ssa.TypeAssert); ok && denotesParam(f, ta.X, sub, 0) {
 							if n, ok := ta.AssertedType.(*types.Named); ok && n.Obj().Name() == "Conn" {
 								return false, true
 							}
